@@ -31,7 +31,7 @@ def final(meta):
 
 
 rows = []
-for d in sorted(glob.glob(os.path.join(ROOT, 'seeded', 'C*'))):
+for d in sorted(glob.glob(os.path.join(ROOT, 'seeded', 'C[0-9][0-9]*'))):
     name = os.path.basename(d)
     try:
         meta = json.load(open(os.path.join(d, 'meta.json')))
@@ -72,10 +72,10 @@ print('\n'.join(out[-(n + 4):]))
 ids = sorted({r[0].split('-')[0] for r in rows})
 byname = {r[0]: r for r in rows}
 SH = {'C': 'C', 'N': 'n', 'M': 'MISS', '?': '?'}
-m = ["| id | round 1 | round 2 | round 3 | round 4 | round 5 |", "|---|---|---|---|---|---|"]
+m = ["| id | round 1 | round 2 | round 3 | round 4 | round 5 | round 6 | round 7 |", "|---|---|---|---|---|---|---|---|"]
 for i in ids:
     cells = []
-    for suf in ('', '-2', '-3', '-4', '-5'):
+    for suf in ('', '-2', '-3', '-4', '-5', '-6', '-7'):
         r = byname.get(i + suf)
         cells.append('–' if r is None else (f"{SH[r[6]]} → {SH[r[7]]}" if r[6] != r[7] else SH[r[7]]))
     m.append(f"| {i} | " + ' | '.join(cells) + " |")
